@@ -267,6 +267,7 @@ def run(ctx):
     if pushers != ["Stack::push_item"] or ins != ["Stack::push_item"]:
         r.violate("push_item|only-inserter", f"stack items are pushed from {pushers} and open_name_counts is inserted into from {ins}; push_item must be the only place (the three structures must stay in step)", None)
     sm.clause_open_name_counts_shrinks(r, mir)
+    sm.clause_raw_entry_compares_keys(r, mir)
     callers = sorted(set(f.key.split("::{closure")[0] for f, bi, t in mir.callers_of(r"Stack::pop_up_to$") if not mir.is_test_fn(f)))
     r.inst("pop_up_to|callers", sample={"callers": callers})
     if callers != ["SelectorMatchingVm::exec_for_end_tag"]:
